@@ -20,10 +20,15 @@ Section Sound.
     (match lookup (norm_prop prop) (element_styles I p elem) with Some l => l | None => [] end) ++
     (match lookup (norm_prop prop) (globalStyles p) with Some l => l | None => [] end).
 
+  (* a value that an undecodable escape has emptied is never judged (fix F16) *)
+  Definition decodable (val : bytes) : bool :=
+    negb ((match seen_value val with [] => true | _ => false end) && negb (match val with [] => true | _ => false end)).
+
   Lemma decl_allowed_spec elem prop val :
-    decl_allowed I p (element_styles I p elem) prop val = existsb (style_accepts I (seen_value val)) (rules_for elem prop).
+    decl_allowed I p (element_styles I p elem) prop val =
+    decodable val && existsb (style_accepts I (seen_value val)) (rules_for elem prop).
   Proof.
-    unfold decl_allowed, rules_for, norm_prop, seen_value. rewrite existsb_app.
+    unfold decl_allowed, rules_for, norm_prop, decodable, seen_value. rewrite existsb_app.
     destruct (lookup _ (element_styles I p elem)); destruct (lookup _ (globalStyles p)); reflexivity.
   Qed.
 
@@ -35,7 +40,7 @@ Section Sound.
     match css_decls I (style_input val) with
     | None => []
     | Some decs => join (map (fun d => fst d ++ [58; 32] ++ snd d)
-                             (filter (fun d => existsb (style_accepts I (seen_value (snd d))) (rules_for elem (fst d))) decs)) [59; 32]
+                             (filter (fun d => decodable (snd d) && existsb (style_accepts I (seen_value (snd d))) (rules_for elem (fst d))) decs)) [59; 32]
     end.
   Proof.
     unfold sanitize_styles, style_input. destruct (css_decls I _) as [decs|]; [|reflexivity].
@@ -45,7 +50,7 @@ Section Sound.
   (* a property without any rule is never kept *)
   Corollary unruled_property_dropped elem prop val : rules_for elem prop = [] ->
     decl_allowed I p (element_styles I p elem) prop val = false.
-  Proof. intros H. rewrite decl_allowed_spec, H. reflexivity. Qed.
+  Proof. intros H. rewrite decl_allowed_spec, H. apply andb_false_r. Qed.
 
   (* ---- C03: the URL gate ------------------------------------------------------------------- *)
   Definition scheme_ok (u : url) : Prop :=
